@@ -951,6 +951,45 @@ fn run_scenario(rep: &mut Report, sc: &mut Scenario, seed: u64, mode: &str, focu
 }
 
 /// see l2mon: names that only declare metadata (never a used cache)
+/// C08 under real concurrency: eight free-running threads hit one resident of an async LFU cache
+/// 160 000 times in all while nothing else happens, then the other resident is hit 140 000 times,
+/// then a third key is stored.  Hit counts are exact (each is taken under the entry's exclusive
+/// guard), so the first resident has the most successful lookups and must stay.
+#[cachelito_async::cache_async(limit = 2, policy = "lfu")]
+async fn hammer_lfu(a: u32) -> u64 {
+    a as u64 + 1
+}
+fn popularity_hammer(rep: &mut Report) {
+    for round in 0..3u32 {
+        let (a, b, c) = (1001 + round * 10_000, 2002 + round * 10_000, 3003 + round * 10_000);
+        vhooks::block_on(hammer_lfu(a));
+        cachelito_core::invalidate_with("hammer_lfu", |_| true);
+        vhooks::block_on(hammer_lfu(a));
+        vhooks::block_on(hammer_lfu(b));
+        std::thread::scope(|s| {
+            for _ in 0..8 {
+                s.spawn(move || {
+                    for _ in 0..20_000 {
+                        vhooks::block_on(hammer_lfu(a));
+                    }
+                });
+            }
+        });
+        for _ in 0..140_000 {
+            vhooks::block_on(hammer_lfu(b));
+        }
+        vhooks::block_on(hammer_lfu(c));
+        rep.count("C08", "free_running_popularity_hammer_rounds", 1);
+        rep.count("C08", "free_running_popularity_hammer_lookups", 300_000);
+        let l = listing("hammer_lfu").unwrap_or_default();
+        let has = |x: u32| l.iter().any(|k| k.contains(&x.to_string()));
+        if !(has(a) && has(c)) || l.len() != 2 {
+            rep.violation("C08", "C08|CONC|async|lfu|entry-with-most-concurrent-hits-evicted|free", &format!("hammer_lfu: after 160000 concurrent hits of {} and 140000 hits of {}, storing {} left {:?} in the cache (the entry with the fewest successful lookups is {})", a, b, c, l, b), json!({"monitor": "concmon-hammer", "round": round, "listing": l}));
+            return;
+        }
+    }
+}
+
 fn register_unused_names() {
     let all = |v: &[&str]| v.iter().map(|s| s.to_string()).collect::<Vec<_>>();
     for i in 0..6 {
@@ -1027,6 +1066,9 @@ fn main() {
         std::process::exit(1);
     }
 
+    if scenarios > 0 && focus == "C08" && shard.0 == 0 && mode == "serial" {
+        popularity_hammer(&mut rep);
+    }
     if scenarios > 0 {
         // parent: children run ranges of scenarios; a child that diagnoses a deadlock cannot
         // continue (its workers hold real locks) and exits with status 3 after writing its report
